@@ -1220,7 +1220,16 @@ func doWalk(cs *connState, ref *fidRef, names []string, getattr bool) (qids []QI
 	// validate anything since this is always permitted.
 	if len(names) == 0 {
 		var sf File // Temporary.
-		if err := ref.maybeParent().safelyRead(func() (err error) {
+
+		// This is safelyRead on the parent, spelled out: ref.parent may be
+		// changed by a concurrent rename and is stable only while renameMu is
+		// held, so it has to be read after renameMu has been taken.
+		cs.server.renameMu.RLock()
+		defer cs.server.renameMu.RUnlock()
+		parent := ref.maybeParent()
+		parent.pathNode.opMu.RLock()
+		defer parent.pathNode.opMu.RUnlock()
+		if err := func() (err error) {
 			// Cloning is a read operation on ref's own path as well, not
 			// only on its parent's: hold ref's node lock too, unless ref is
 			// a root, whose own node is already locked above.
@@ -1252,7 +1261,7 @@ func doWalk(cs *connState, ref *fidRef, names []string, getattr bool) (qids []QI
 			// doWalk returns a reference.
 			newRef.IncRef()
 			return nil
-		}); err != nil {
+		}(); err != nil {
 			return nil, nil, AttrMask{}, Attr{}, err
 		}
 
